@@ -182,7 +182,8 @@ def add_params(ctx, rec, idx, fields, nvars=1, size=10, budget=None):
             numerals(rec[f], ns)
     if [n for n in ns if abs(n) > 20]:
         return "large-numerals"
-    lo, hi = -1, 2
+    # the base contains the small numerals of the case itself (an atom over a numeral of the rule must be able to be true)
+    lo, hi = max(min([-1] + ns), -3), min(max([2] + ns), 4)
     margin = {0: 2, 1: 2, 2: 1}.get(nvars, 0)
     if not ctx.quick():
         margin += 1
